@@ -99,6 +99,22 @@ def main():
             e = f.fs.root_dir.get_entry(p)
             out["results"].append({"utc": utc, "stamp": p, "t0": t0, "t1": t1, "created": d["created"], "modified": d["modified"],
                                    "raw_crt": dec_date(e.crtdate) + dec_time(e.crttime), "want_fields": civil(conv(int(t0)))})
+        # "recorded": what the DEVICE holds for an entry that is stamped by an operation — a new file, and an existing file (set to 2001 first)
+        # re-created with wipe=True (C17-m8: the new modification time stayed in memory)
+        f.setinfo("/t.txt", {"details": {"modified": 1000000000, "accessed": 1000000000}})
+        t0 = time.time()
+        f.create("/stamped on the device.txt")
+        f.create("/t.txt", wipe=True)            # last: nothing rewrites the directory afterwards
+        t1 = time.time()
+        tree, _ = fatspec.Volume(dev.volume()).tree("ibm437")
+        for pth in ("/t.txt", "/stamped on the device.txt"):
+            tt = tree.get(pth)
+            if tt is None:
+                out["results"].append({"utc": utc, "device_stamp": pth, "missing": True})
+                continue
+            times = tt[3:]
+            out["results"].append({"utc": utc, "device_stamp": pth, "t0": t0, "t1": t1, "raw_wrt": dec_date(times[1][0]) + dec_time(times[1][1]),
+                                   "want_lo": civil(conv(int(t0) - 2)), "want_hi": civil(conv(int(t1) + 1))})
         f.close()
     json.dump(out, sys.stdout)
 
